@@ -10,7 +10,9 @@ def _val(words, sign):
 
 def replay_bits(spec, inputs, workdir):
     """Exact-length operands rebuilt in a real context of the current tree; oracle: Python integers."""
-    d, grp = spec["defs"], spec["group"]
+    d, grp = dict(spec["defs"]), spec["group"]
+    if grp == "shift_fixnum":
+        grp = "shift"; d["KA"] = 0
     gi = lambda k, dv=0: int(inputs.get(k, dv))
     A = [gi("in_a[%dl]" % i) for i in range(d.get("HA", 1))]
     B = [gi("in_b[%dl]" % i) for i in range(d.get("HB", 1))]
@@ -61,7 +63,7 @@ int main(void){ sexp ctx = sexp_make_eval_context(NULL, NULL, NULL, 0, 0);
 BASE = {"harness": "harness/C17/bits.c", "label": "bounded", "flags": SMALL,
         "units": [{"repo": "bignum.c", "remove_bodies": ["sexp_bignum_hi", "sexp_copy_bignum", "sexp_bignum_fxadd", "sexp_bignum_fxsub"]}],
         "stub_defs": ["sexp_bignum_hi", "sexp_copy_bignum", "sexp_bignum_fxadd", "sexp_bignum_fxsub"], "stub_src": ["harness/C04/stubs.c"],
-        "unwind": 12, "unwindset": "sexp_arithmetic_shift:2,integer_log2:3",
+        "unwind": 12, "unwindset": "sexp_arithmetic_shift:2,integer_log2:3,log2i.0:66",
         "min_obligations": 5, "timeout": 240, "mem_gb": 3, "replay": replay_bits,
         "assumptions": ["sexp_bignum_hi, sexp_copy_bignum, sexp_bignum_fxadd replaced by their contracts (each checked against its real body under C04)",
                         "sexp_alloc_tagged_aux is alloc_plain: fresh zeroed object of exactly the requested size",
@@ -126,4 +128,18 @@ def shift_instances():
     return out
 GROUPS.append(dict(BASE, name="shift", entry="h_shift", functions=["lib/srfi/151/bit.c:sexp_arithmetic_shift", "lib/srfi/151/bit.c:log2i"],
                    bound=B2 + "; shift count = +-(64*OFF + bs), word offset OFF in 0..3 enumerated; bit shift bs symbolic over 0..63 for non-negative operands, enumerated {0,1,63} for negative operands (the symbolic form exceeded 240 s)", instances=shift_instances()))
-META = {}
+GROUPS.append(dict(BASE, name="shift_fixnum", entry="h_shift_fixnum", label="proved",
+                   units=[{"repo": "bignum.c", "remove_bodies": ["sexp_bignum_hi", "sexp_copy_bignum", "sexp_bignum_fxadd", "sexp_bignum_fxsub"]}],
+                   stub_defs=["HANDOVER_sexp_bignum_hi", "sexp_copy_bignum", "sexp_bignum_fxadd", "sexp_bignum_fxsub"],
+                   functions=["lib/srfi/151/bit.c:sexp_arithmetic_shift(fixnum path)", "lib/srfi/151/bit.c:log2i"],
+                   unwindset="sexp_arithmetic_shift:2,log2i.0:66", bound="none: all fixnum operands and all fixnum counts; log2i unwound to its 64-step maximum",
+                   instances=[{"name": "all_fixnums", "defs": {"LA": 1, "HA": 1, "KA": 0}}]))
+META = {
+ "trusted_base": ["CBMC 6.11.0 front end and SAT back end", "harness/prelude.h substitutions (exact-field accessors, sign test via shift, kind tests on registered objects under VERIF_KINDFOLD)",
+                  "two's-complement wrap of signed arithmetic as GCC/Clang implement it"],
+ "assumptions": ["registered heap objects are 8-byte aligned (kind tests on them return what an aligned pointer gives)",
+                 "two's-complement semantics stated on the mathematical value sign-extended to 704 (512 for shifts) bits: exact for the enumerated operand sizes"],
+ "not_covered": ["mixed fixnum/bignum operand pairs of bit-and/ior/xor: the dispatch on a symbolic fixnum is not foldable by CBMC (every instance exceeded 240 s); the fixnum is converted by sexp_fixnum_to_bignum (C04) and then takes the bignum x bignum core covered here",
+                 "bignum operands of arithmetic-shift with a negative sign and a SYMBOLIC bit shift (enumerated bit shifts 0, 1, 63 instead)",
+                 "bitwise.scm field operations (Scheme)", "SRFI 33 / 142 wrappers (Scheme)"],
+}
